@@ -3,9 +3,12 @@ import json, os, re, shutil, subprocess, sys, time, hashlib
 
 VERIF = os.path.dirname(os.path.dirname(os.path.abspath(__file__)))
 SPEC = os.path.join(VERIF, "spec")
-WORK = os.path.join(VERIF, "work")
-REPLAYS = os.path.join(VERIF, "replays")
-EVIDENCE = os.path.join(VERIF, "evidence")
+# VERIF_SCRATCH (used by bin/seed.sh, seedall.sh, benign.sh): runs against changed sources keep their work files, replays
+# and evidence away from /verif, so that they neither collide with a registered check nor overwrite its evidence
+_SCR = os.environ.get("VERIF_SCRATCH")
+WORK = os.path.join(_SCR or VERIF, "work")
+REPLAYS = os.path.join(_SCR or VERIF, "replays")
+EVIDENCE = os.path.join(_SCR or VERIF, "evidence")
 PY = "/venv/bin/python"
 JAR = "/opt/veriftools/tla/tla2tools.jar:/opt/veriftools/tla/CommunityModules-deps.jar"
 NCPU = os.cpu_count() or 4
